@@ -45,7 +45,7 @@ func genC12Opts(t *rapid.T, c *c12Case) {
 	c.Strict = rapid.IntRange(0, 3).Draw(t, "strict") == 0
 	c.SingleP = rapid.IntRange(0, 7).Draw(t, "singleP") == 0
 	c.OneCPU = c.SingleP && rapid.Bool().Draw(t, "oneCPU")
-	c.IOKind = rapid.SampledFrom([]int{0, 0, 0, 1, 3, 4, 5}).Draw(t, "ioKind")
+	c.IOKind = rapid.SampledFrom([]int{0, 0, 0, 1, 3, 4, 5, 7}).Draw(t, "ioKind")
 	c.Target = rapid.SampledFrom([]string{"", "", "slash", "rel"}).Draw(t, "target")
 }
 
